@@ -4,6 +4,8 @@
      import m              ==>  module_entry "<path>#__module__" ; store m
      import a, b from m    ==>  module_entry "<path>#__module__" ; split_lookup_store a b ; pop
      export x: T = v       ==>  ... ; store x ; export_name x          (MScriptFile::add_export: write once)
+     import type T from m  ==>  the names form with NO value name: module_entry ; split_lookup_store ; pop  -  `Names []`;
+                                `export type T ..` exists at compile time only (no action): a module may have an EMPTY export map
      Program::process_jump_request (Module key):
         module_cache hit   -> the cached export map is the value of the jump, nothing runs
         miss               -> process_standard_jump_request: add_file registers the file and pre-inserts
